@@ -106,6 +106,9 @@ pub struct Desc {
     pub offset: u64,
     pub append: bool,
     pub origin: Origin,
+    /// file status flags of the open file description that F_SETFL can change (O_NONBLOCK, ...):
+    /// shared by every descriptor, in every process, that refers to it
+    pub status: i32,
 }
 
 #[derive(Clone, Debug)]
@@ -649,7 +652,7 @@ impl Kernel {
     // ---- descriptions ----------------------------------------------------
 
     pub fn new_desc(&mut self, kind: DescKind, origin: Origin) -> usize {
-        self.descs.push(Desc { kind, refs: 0, offset: 0, append: false, origin });
+        self.descs.push(Desc { kind, refs: 0, offset: 0, append: false, origin, status: 0 });
         self.descs.len() - 1
     }
 
@@ -839,9 +842,24 @@ impl Kernel {
                     DescKind::PipeR(_) => libc::O_RDONLY,
                     DescKind::PipeW(_) => libc::O_WRONLY,
                     _ => libc::O_RDWR,
-                })
+                } | self.descs[d].status)
             }
-            libc::F_SETFL => Ok(0),
+            libc::F_SETFL => {
+                // only these can be changed after open(); the access mode is ignored
+                let settable = libc::O_NONBLOCK | libc::O_APPEND | libc::O_ASYNC | libc::O_DIRECT | libc::O_NOATIME;
+                let d = self.proc(pid).fds[&fd].desc;
+                let new = arg as i32 & settable;
+                let old = self.descs[d].status;
+                if new != old {
+                    self.descs[d].status = new;
+                    if self.descs[d].origin == Origin::Boot {
+                        // whoever does it, parent or forked child: the description is the parent's own
+                        self.std_touched.push(format!("F_SETFL(status_flags {:#o}->{:#o}) on the open file of the parent's own standard stream, by process {}", old, new, pid));
+                    }
+                    self.touch();
+                }
+                Ok(0)
+            }
             libc::F_DUPFD => self.k_dupfd(pid, fd, arg as i32, false),
             libc::F_DUPFD_CLOEXEC => self.k_dupfd(pid, fd, arg as i32, true),
             _ => Err(libc::EINVAL),
